@@ -270,7 +270,7 @@ func c06CloseOnce(c *Check, P string, r *RouterRoles2) {
 	_, notClosed := BoolEdges(Cl, func(v ssa.Value) bool { return AllOrigins(v, IsFieldLoad(r.ClosedF)) })
 	c.Floor(P+".O4", "test of the closed flag in Close", len(notClosed), 1)
 	for _, a := range r.LA.Accesses(r.ClosedF) {
-		fn := a.Ins.Parent()
+		fn := HomeFn(a.Ins.Parent())
 		if fn.Name() == "newRouter" || fn.Parent() == nil && fn.Signature.Recv() == nil && !a.Write {
 			continue
 		}
